@@ -44,7 +44,9 @@ VALUES = [I(-1), I(0), I(1), I(2), I(3), F(0), F(15), F(-25), F(20), F(25), F(-5
           # arrays whose elements are of different kinds in both orders (an element is judged on its own, whatever came before)
           V("vec", c=[B(True), V("sym", 0, "foo")]), V("vec", c=[V("sym", 0, "foo"), B(True)]), V("vec", c=[B(True), B(False)]),
           V("vec", c=[I(1), B(False), V("sym", 0, "foo"), I(2)]), V("vec", c=[I(1), F(15)]), V("vec", c=[F(15), I(1)]), V("vec", c=[S("a"), I(1)]),
-          V("vec", c=[S("a"), S("true")]), V("vec", c=[I(2), I(-1)])]
+          V("vec", c=[S("a"), S("true")]), V("vec", c=[I(2), I(-1)]),
+          # maps that satisfy the FIRST key constraint of a list and fail a later one, before and after maps that satisfy all
+          M([("a", I(1)), ("b", B(True))]), M([("a", I(1)), ("b", I(2))]), M([("a", I(1)), ("c", S("x"))]), M([("a", I(1)), ("b", I(2)), ("c", I(3))]), M([("a", I(7)), ("c", I(3))], "sym")]
 
 
 def rv(v):
@@ -149,7 +151,8 @@ def composites(at):
     hk = C("haskey", k="a", cs=[TN("int")])
     hs = C("haskey", k="a", cs=[TN("string")])
     mk = C("mayhavekey", k="b", cs=[TN("int"), TN("string")])
-    out += [C("nok"), C("nok", cs=[hk]), C("nok", cs=[hk, mk]), C("nok", cs=[hs, mk]), C("nok", cs=[mk])]
+    hc = C("haskey", k="c", cs=[TN("int")])
+    out += [C("nok"), C("nok", cs=[hk]), C("nok", cs=[hk, mk]), C("nok", cs=[hs, mk]), C("nok", cs=[mk]), C("nok", cs=[hk, hc]), C("nok", cs=[hk, mk, hc]), C("nok", cs=[mk, hc, hk])]
     for g in (TN("int"), TN("string"), TY("bool", C("istrue")), C("istruthy"), TY("int", C("gt", n=0))):
         for c in (C("positive"), C("lengt", n=0), TN("int"), C("in", vs=[I(2), S("y")])):
             out.append(C("when", k="a", g=[g], k2="b", cs=[c]))
@@ -207,7 +210,9 @@ def _run(V_, work, tier):
     if len(model) != len(schemas) * len(VALUES):
         raise MachineryError("Schema produced %d of %d verdicts" % (len(model), len(schemas) * len(VALUES)))
     # (every value is validated a second time after all the others: a verdict is a function of schema and value)
-    drv = [{"id": i, "seq": ["(set 'vv %s)" % rs(sc)] + ["(s:validate vv %s)" % rv(v) for v in VALUES] + ["(s:validate vv %s)" % rv(v) for v in VALUES], "cfg": {"nocount": True}} for i, sc in enumerate(schemas)]
+    drv = [{"id": i, "seq": ["(set 'vv %s)" % rs(sc)] + ["(s:validate vv %s)" % rv(v) for v in VALUES] + ["(s:validate vv %s)" % rv(v) for v in VALUES] +
+            # ... and by a second validator built from the same declaration, which meets the values in the opposite order
+            ["(set 'ww %s)" % rs(sc)] + ["(s:validate ww %s)" % rv(v) for v in reversed(VALUES)], "cfg": {"nocount": True}} for i, sc in enumerate(schemas)]
     real = {r["id"]: r["runs"][0]["evals"] for r in driver_json(binary, ["run"], drv, timeout=3300)}
     nbad = 0
     for i, sc in enumerate(schemas):
@@ -237,6 +242,9 @@ def _run(V_, work, tier):
             want = model[(i, j + 1)]["verdict"]
             if len(evs) > len(VALUES) + j + 1 and classify(evs[len(VALUES) + j + 1]) != got:
                 V_.add(None, "the same validation gives two answers: (s:validate %s %s) gives %s the first time and %s the second" % (text_, rv(v), got, classify(evs[len(VALUES) + j + 1])), {"schema": text_, "value": rv(v)})
+            k3 = 2 * len(VALUES) + 1 + (len(VALUES) - j)
+            if len(evs) > k3 and classify(evs[k3]) != got:
+                V_.add(None, "a verdict depends on what the validator was shown before: (s:validate %s %s) gives %s after the values before it and %s in a second validator that met the values in the opposite order" % (text_, rv(v), got, classify(evs[k3])), {"schema": text_, "value": rv(v)})
             if ev["v"].get("panic"):
                 V_.add(None, "validation panicked: %s on %s" % (text_, rv(v)), {"schema": text_, "value": rv(v)})
             elif got != want:
